@@ -10,6 +10,7 @@ recipe, None, or a tuple of recipes.
 from __future__ import annotations
 
 import enum
+from pathlib import Path
 from dataclasses import dataclass, field
 from typing import Any, Literal, Union
 
@@ -393,6 +394,28 @@ def origin_class(key: str | None) -> str:
     if key is None:
         return "no"
     return "a" if key == "a2" else key
+
+
+@dataclass(frozen=True)
+class VSer(VBase):
+    """Property values of every representable kind (C04)."""
+
+    s: str = ""
+    i: int = 0
+    f: float = 0.0
+    b: bool = False
+    n: int | None = None
+    e: Color = Color.RED
+    p: Path = Path(".")
+    lit: Literal["a", "b"] = "a"
+    t: tuple[int, ...] = ()
+    ot: tuple[str, ...] | None = None
+    hidden: str = field(default="", compare=False)
+    kid: VBase | None = None
+    kids: tuple[VBase, ...] = ()
+
+
+CLASSES["VSer"] = VSer
 
 
 # ------------------------------------------------ fault-injecting property (C16)
